@@ -919,6 +919,15 @@ func (u *Unit) callFunc(st *State, e *ast.CallExpr, callee *types.Func, recvExpr
 	}
 	ca, after := u.evalArgs(st, e, sig, recvExpr, callee)
 	ca.isig = sig
+	if ct, _ := u.eng.contractFor(callee); ct != nil && ct.Inline && callee.Pkg() == u.pkg.Types && !sig.Variadic() {
+		if fd, _ := u.eng.findFunc(u.pkg, calleeKey(callee.Origin())); fd != nil && fd.Body != nil {
+			res := u.execDeclInline(st, e, callee, fd, ca.recv, ca.args)
+			for _, f := range after {
+				f()
+			}
+			return res
+		}
+	}
 	res := u.applyCallee(st, e, callee, ca)
 	for _, f := range after {
 		f()
@@ -1087,6 +1096,45 @@ func (u *Unit) callDynamic(st *State, e *ast.CallExpr) Term {
 			g()
 		}
 	}()
+	// assumed contract of this function value (fncall directive of the unit's contract)
+	if u.ct != nil && u.ct.FnCalls != nil {
+		key := strings.Join(strings.Fields(u.exprText(e.Fun)), "")
+		if sub, ok := u.ct.FnCalls[key]; ok {
+			names := map[string]Term{}
+			for i := 0; i < sig.Params().Len() && i < len(ca.args); i++ {
+				if n := sig.Params().At(i).Name(); n != "" && n != "_" {
+					a := ca.args[i]
+					a.T = sig.Params().At(i).Type()
+					names[n] = a
+				}
+				names[fmt.Sprintf("arg%d", i)] = ca.args[i]
+			}
+			pre := st.clone()
+			env := &SpecEnv{u: u, st: st, old: pre, names: names, cs: u.cs, pkg: u.pkg.Types, own: true, scopePos: e.Pos(), loopInv: true}
+			for i, r := range sub.Requires {
+				g := env.evalBool(r.Expr)
+				u.emit(st, "pre", fmt.Sprintf("pre(fncall %s)#%d", key, i), "precondition of function value "+key+": "+r.Text, e.Pos(), g)
+				st.assume(g)
+			}
+			u.bumpAlloc(st)
+			for _, m := range sub.Modifies {
+				u.havocTarget(st, env, m)
+			}
+			rs := u.freshResults(st, sig, "fv")
+			for i := 0; i < sig.Results().Len(); i++ {
+				if n := sig.Results().At(i).Name(); n != "" && n != "_" {
+					names[n] = rs[i]
+				}
+				names[fmt.Sprintf("result%d", i)] = rs[i]
+			}
+			env2 := &SpecEnv{u: u, st: st, old: pre, names: names, cs: u.cs, pkg: u.pkg.Types, own: true, scopePos: e.Pos(), loopInv: true}
+			for _, en := range sub.Ensures {
+				st.assume(env2.evalBool(en.Expr))
+			}
+			u.c.note("call through %s uses the assumed fncall contract (trusted boundary)", key)
+			return resultTerm(rs)
+		}
+	}
 	// function-typed parameter declared pure: results are functions of (f, args)
 	if id, ok := ast.Unparen(e.Fun).(*ast.Ident); ok && u.ct != nil && u.ct.FnPure[id.Name] {
 		var rs []Term
@@ -1305,15 +1353,8 @@ func declaresGhostFrame(ct *FuncContract) bool {
 	if ct == nil {
 		return false
 	}
-	if ct.Options["ghost-frame"] {
-		return true
-	}
-	for _, m := range ct.Modifies {
-		if _, _, ok := ghostModifies(m); ok {
-			return true
-		}
-	}
-	return false
+	// frame-checked functions promise (and are checked for) ghost counters too; noframe / modifies-all ones promise nothing
+	return !ct.NoFrame && !ct.ModifiesAll
 }
 
 func ghostModifies(m Clause) (string, ast.Expr, bool) {
